@@ -215,8 +215,14 @@ def _split_tuple_assign(a):
         pairs = list(zip(a.targets[0].elts, a.value.elts))
         # a position that re-binds a name to itself (`wit` in `ret, wit = PrivVal(0), wit`) is a no-op and is dropped
         live = [(t, v) for t, v in pairs if not (isinstance(v, ast.Name) and v.id == t.id)]
-        used = {x.id for _t, v in live for x in ast.walk(v) if isinstance(x, ast.Name)}
-        if not ({t.id for t, _v in live} & used) and len({t.id for t, _v in pairs}) == len(pairs):
+        # sequential assignment is the same as the simultaneous one when no value reads a target bound at an EARLIER position
+        # (a value may read its own target: `g, e = (c if g is None else g & c), e or z`)
+        seq_ok = True
+        for j, (_t, v) in enumerate(live):
+            earlier = {t2.id for t2, _v2 in live[:j]}
+            if earlier & {x.id for x in ast.walk(v) if isinstance(x, ast.Name)}:
+                seq_ok = False
+        if seq_ok and len({t.id for t, _v in pairs}) == len(pairs):
             return [ast.copy_location(ast.Assign(targets=[ast.Name(id=t.id, ctx=ast.Store())], value=v), a) for t, v in live] or \
                 [ast.copy_location(ast.Pass(), a)]
     return [a]
@@ -1061,6 +1067,36 @@ def _canon_tests(fnode):
     operand's reflected method, which is what the swapped form calls);  `if not T: A else: B` -> `if T: B else: A`."""
     FL = {ast.Eq: ast.Eq, ast.NotEq: ast.NotEq, ast.Lt: ast.Gt, ast.Gt: ast.Lt, ast.LtE: ast.GtE, ast.GtE: ast.LtE}
     changed = False
+    # the LAST statement of the function body is `if c: A else: B` with an arm that leaves the function: that arm (the shorter
+    # one if both do) becomes a guard clause and the other arm continues at function level
+    body = fnode.body
+    for _ in range(12):
+        if not (body and isinstance(body[-1], ast.If) and body[-1].orelse):
+            break
+        s = body[-1]
+        if len(s.orelse) == 1 and isinstance(s.orelse[0], ast.If) and not _terminates(s.body):
+            break
+        ta, tb = _terminates(s.body), _terminates(s.orelse)
+        if not ta and not tb:
+            break
+        # (an elif chain keeps its order: each arm that leaves becomes a guard clause in turn)
+        # when both arms leave, the `if` arm is the guard - unless the else arm is nothing but a raise / a bare refusal
+        # (`else: raise TypeError`, `else: return NotImplemented`) after a longer `if` arm
+        bare_else = len(s.orelse) == 1 and (isinstance(s.orelse[0], ast.Raise) or (
+            isinstance(s.orelse[0], ast.Return) and (s.orelse[0].value is None or isinstance(s.orelse[0].value, (ast.Constant, ast.Name)))))
+        guard_is_body = ta and not (tb and bare_else and len(s.body) > 1)
+        if guard_is_body:
+            tail = s.orelse
+            s.orelse = []
+        else:
+            tail = s.body
+            s.body = s.orelse
+            s.orelse = []
+            s.test = ast.copy_location(s.test.operand if isinstance(s.test, ast.UnaryOp) and isinstance(s.test.op, ast.Not)
+                                       else ast.UnaryOp(op=ast.Not(), operand=s.test), s.test)
+        body.extend(tail)
+        ast.fix_missing_locations(s)
+        changed = True
     for n in ast.walk(fnode):
         if isinstance(n, ast.Compare) and len(n.ops) == 1 and type(n.ops[0]) in FL and isinstance(n.left, ast.Constant) \
                 and isinstance(n.left.value, int) and not isinstance(n.left.value, bool) and not isinstance(n.comparators[0], ast.Constant):
@@ -1071,6 +1107,16 @@ def _canon_tests(fnode):
                 and not (len(n.orelse) == 1 and isinstance(n.orelse[0], ast.If)):
             n.test = n.test.operand
             n.body, n.orelse = n.orelse, n.body
+            changed = True
+    # if a: (if b: X)  with no else on either and nothing else in the outer body  ->  if a and b: X
+    for n in ast.walk(fnode):
+        while isinstance(n, ast.If) and not n.orelse and len(n.body) == 1 and isinstance(n.body[0], ast.If) and not n.body[0].orelse:
+            inner = n.body[0]
+            left = list(n.test.values) if isinstance(n.test, ast.BoolOp) and isinstance(n.test.op, ast.And) else [n.test]
+            right = list(inner.test.values) if isinstance(inner.test, ast.BoolOp) and isinstance(inner.test.op, ast.And) else [inner.test]
+            n.test = ast.copy_location(ast.BoolOp(op=ast.And(), values=left + right), n.test)
+            n.body = inner.body
+            ast.fix_missing_locations(n)
             changed = True
     return changed
 
@@ -2501,7 +2547,8 @@ def resolve_locals(fnode, expr, max_depth=4, copies_only=False, keep=()):
                 for x in ast.walk(t):
                     if isinstance(x, ast.Subscript) and isinstance(x.value, ast.Name):
                         mutated.add(x.value.id)
-    single = {k: v for k, v in single.items() if k not in mutated and k not in keep}
+    shared = {g for n in ast.walk(fnode) if isinstance(n, (ast.Global, ast.Nonlocal)) for g in n.names}
+    single = {k: v for k, v in single.items() if k not in mutated and k not in keep and k not in shared}
     if copies_only:
         # copy propagation only (t = u): always sound for single-assignment locals, whatever state changes in between
         single = {k: v for k, v in single.items() if isinstance(v, ast.Name)}
